@@ -26,13 +26,35 @@ def gen_cases(tier):
             cfgs.append((rng.choice(gen.keep_choices(rng, d1, d2)), rng.random() < 0.5, o))
         if tier == "quick":
             cfgs = rng.sample(cfgs, min(4, len(cfgs)))
-        cases.append({"id": i + 1, "raw": [d1, d2], "swap": swap, "schema": schema, "cfgs": cfgs})
+        cases.append({"id": i + 1, "raw": [d1, d2], "swap": swap, "schema": schema, "cfgs": cfgs, "sibling": i % 3 == 0})
     return cases
+
+
+def sibling(d1, d2):
+    """The consumer's assumptions turned into a component that GUARANTEES them: composing the producer with it relaxes the very
+    terms that composing the producer with the consumer refines, in the same process (nothing may be carried from one to the other)."""
+    if not d2["a"]:
+        return None
+    used = sorted({v for co, _ in d2["a"] for v in co})
+    free = [v for v in used if v not in d1["outv"] and v not in d1["inv"]]
+    outv = free[:1] or ["sib_o"]
+    return {"inv": [v for v in used if v not in outv], "outv": outv, "a": [], "g": list(d2["a"])}
 
 
 def run_case(case):
     d1, d2 = case["raw"]
     evs = []
+    sib = sibling(d1, d2) if case.get("sibling") and not case.get("only_event") else None
+
+    def sib_event():
+        try:
+            c1, cs = gen.mk_contract(d1), gen.mk_contract(sib)
+        except ValueError:
+            return
+        evs.append(ops.ev_compose(c1, cs, [], True, case["cfgs"][0][2], ["sound", "itf"]))
+
+    if sib and case["id"] % 2:
+        sib_event()
     for j, (keep, simp, order) in enumerate(case["cfgs"], 1):
         if case.get("only_event") and case["only_event"] != j:
             continue
@@ -40,13 +62,19 @@ def run_case(case):
         if case["swap"]:
             c1, c2 = c2, c1
         evs.append(ops.ev_compose(c1, c2, keep, simp, order, ["sound", "itf"]))
+    if sib and not case["id"] % 2:
+        sib_event()
+        c1, c2 = gen.mk_contract(d1), gen.mk_contract(d2)
+        keep, simp, order = case["cfgs"][0]
+        evs.append(ops.ev_compose(c2 if case["swap"] else c1, c1 if case["swap"] else c2, keep, simp, order, ["sound", "itf"]))
     return {"id": case["id"], "ev": evs}
 
 
 def main(tier, replay=None):
     return opsprop.run(
         PROP, tier, gen_cases(tier), run_case,
-        "one trace per generated contract pair (9 wiring schemas), one event per (vars_to_keep, simplify, tactics_order); "
+        "one trace per generated contract pair (9 wiring schemas), one event per (vars_to_keep, simplify, tactics_order); for a third of the "
+        "pairs also the producer composed with a component that guarantees what the consumer assumes, before or after (same process); "
         "non-trivial = compose returned a contract and some variable was eliminated by a tactic >= 1; distinct by digest of the call",
         replay=replay, design=("Alg_compose_quick.cfg", "Alg_compose.cfg"),
         nontrivial=lambda ev: ev["exc"] == "none" and bool(ops.tactics_used(ev)),
